@@ -5,6 +5,7 @@ spec: Spec/Xml.lean).
 import PdfVerif.Lemmas.XmlDoc
 import PdfVerif.Lemmas.Format
 import PdfVerif.Lemmas.XmlInj
+import PdfVerif.Lemmas.ConvertCodec
 
 namespace PdfVerif.Props.C11
 open PdfVerif PdfVerif.Convert PdfVerif.Xml
@@ -154,6 +155,34 @@ def toyCodec : Codec Bool where
     else none
 
 example : sinkBinary toyCodec false [['a'], ['<', 'b']] = some [0xFE, 0xFF, 0, 97, 0, 60, 0, 98] := by decide
+
+/-! ### a concrete stateful encoder: `utf-32` (pending byte-order mark), no hypothesis left
+
+`utf32Codec` (Model/ConvertCodec.lean) is the state machine of `codecs.getincrementalencoder("utf-32")`: the
+byte-order mark before the first character, 4 little-endian bytes per character.  The driver op `textbin` /
+`xmlbin` compares the model's sink with the real `BytesIO` contents byte by byte on every run, `utf32dec` runs
+the decoder below on the implementation's bytes. -/
+
+/-- For EVERY sequence of writes and both error policies the `utf-32` binary sink receives bytes that decode
+(one byte-order mark, then the code points) to exactly the concatenation of the writes: concatenated writes
+decode to concatenated text, however the output is cut into writes. -/
+theorem C11_sink_utf32 (ignore : Bool) (writes : List Str) :
+    ∃ bs, sinkBinary utf32Codec ignore writes = some bs ∧ utf32Decode bs = some (sinkText writes) :=
+  C11_sink utf32Codec utf32Decode utf32_inv ignore writes
+    (encodePiece_total utf32Codec (fun _ _ => rfl) false _ _)
+
+/-- text output, `utf-32` binary sink, every tree and `showpageno` choice: decodes to the specified text -/
+theorem C11_sink_utf32_text (showpageno : Bool) (ps : List Page) :
+    ∃ bs, sinkBinary utf32Codec true (textDocWritesPn showpageno ps) = some bs ∧
+      utf32Decode bs = some (specTextPn showpageno ps) := by
+  have h := C11_sink_utf32 true (textDocWritesPn showpageno ps)
+  rwa [C11_text_pageno] at h
+
+example : sinkBinary utf32Codec false [['a'], [], ['b']] =
+    some [0xFF, 0xFE, 0, 0, 97, 0, 0, 0, 98, 0, 0, 0] := by decide
+
+example : utf32Decode [0xFF, 0xFE, 0, 0, 0x00, 0xF6, 0x01, 0] = some [Char.ofNat 0x1F600] ∧
+    utf32Decode [97, 0, 0, 0] = none ∧ utf32Decode [0xFF, 0xFE, 0, 0, 0, 0xD8, 0, 0] = none := by decide
 
 /-! ## Escaping -/
 
@@ -312,6 +341,15 @@ example : sinkText (xmlDocWrites false none [pgA]) ≠ sinkText (xmlDocWrites fa
 example : stripPage true ⟨['1'], ['0'], ['0'], [.char ['F'] [] [] [] [] ['a', '\x01']], none⟩ =
     stripPage true ⟨['1'], ['0'], ['0'], [.char ['F', '\x02'] [] [] [] [] ['a']], none⟩ := by
   simp [stripPage, stripItemL, stripItem]; decide
+
+/-- end to end through a stateful binary sink: the bytes `XMLConverter` writes into a `utf-32` sink, decoded and
+read by the XML reader, are the skeleton of the hierarchy -/
+theorem C11_xml_wf_utf32 (strip : Bool) (codec : Option Str) (ps : List Page) (hc : CodecNameOk codec)
+    (h : ∀ p ∈ ps, PageOk strip p) :
+    ∃ bs, sinkBinary utf32Codec false (xmlDocWrites strip codec ps) = some bs ∧
+      (utf32Decode bs).bind parseXML = some (docSkeleton strip ps) := by
+  obtain ⟨bs, h1, h2⟩ := C11_sink_utf32 false (xmlDocWrites strip codec ps)
+  exact ⟨bs, h1, by rw [h2]; exact C11_xml_wf strip codec ps hc h⟩
 
 /-- the escapes matter: the same figure name written raw (the pinned behaviour) is rejected by the reader -/
 example : parseXML (['<', 'f', ' ', 'n', '=', '"'] ++ ['a', '"', '<'] ++ ['"', '/', '>']) = none := by decide
